@@ -173,7 +173,8 @@ def run(ctx, rep):
             rep.bad('D1.fixed', fn, st, 'a column that is not conditioned on can receive a conditioning value')
     if not seen_given:
         anyc = [1 for st, k, v, reach, loop in col_stores if reach is not None and any(a.startswith('in[') for a in atoms_of(reach))]
-        if anyc:
+        on_conditions = [1 for st, k, v, reach, loop in col_stores if reach is not None and any(a.startswith('in[') and a.endswith('|conditions]') for a in atoms_of(reach))]
+        if anyc and on_conditions:
             rep.bad('D1.fixed', fn, fn.node.name, 'no path fills a conditioned column with its given value', construct='conditioned branch')
         else:
             rep.undecided('D1.fixed', fn, fn.node.name, 'how conditioned columns are filled was not recognised', construct='conditioned branch')
@@ -268,6 +269,8 @@ def run(ctx, rep):
                 continue
             if not any(w in t for w in ('series', 'dataframe', 'ndarray', 'np.array', 'numpy.array', 'array')):
                 continue
+            if any(w in t.replace(',', ' ').replace('|', ' ').split() for w in ('bool', 'int', 'float', 'scalar', 'none', 'str')):
+                continue        # documented as "scalar or array": a truth test is legitimate on the scalar alternative
             n += 1
             for node in walk_no_nested(f.node):
                 if isinstance(node, ast.Name) and node.id == p and isinstance(node.ctx, ast.Load):
